@@ -785,7 +785,7 @@ type vC20Queryer struct {
 
 func (q *vC20Queryer) Query(ctx context.Context, req *dns.Msg) (*dns.Msg, error) {
 	q.called++
-	q.last = req
+	q.last = req.Copy()
 	q.cut.fold(ctx, 1)
 	if q.err != nil {
 		return nil, q.err
@@ -1469,15 +1469,15 @@ func vC20RunOnce(o *vC20Out, sc *vC20Scenario, passNontrivial bool) bool {
 
 	// ---- observe
 	got := mw.Msg()
-	obs := "(mk_obs false false 0 false [] [] " + vC20Bool(qr.called > 0) + " " + vC20Bool(next.calls > 0) + ")"
+	obs := "(mk_obs false false 0 false [] [] " + vC20Bool(qr.called > 0) + " " + vC20Bool(next.calls > 0) + " " + vC20SubQ(qr.last) + ")"
 	if got != nil {
 		_, gotEdes := vC20Edes(got)
 		var es []string
 		for _, c := range gotEdes {
 			es = append(es, strconv.Itoa(int(c)))
 		}
-		obs = fmt.Sprintf("(mk_obs true %s %d %s [%s]%%N %s %s %s)", vC20Bool(next.written != nil && got == next.written), got.Rcode,
-			vC20Bool(got.AuthenticatedData), strings.Join(es, "; "), vC20RRs(got.Answer), vC20Bool(qr.called > 0), vC20Bool(next.calls > 0))
+		obs = fmt.Sprintf("(mk_obs true %s %d %s [%s]%%N %s %s %s %s)", vC20Bool(next.written != nil && got == next.written), got.Rcode,
+			vC20Bool(got.AuthenticatedData), strings.Join(es, "; "), vC20RRs(got.Answer), vC20Bool(qr.called > 0), vC20Bool(next.calls > 0), vC20SubQ(qr.last))
 	}
 	nq := len(req.Question)
 	qclass := 0
@@ -1529,7 +1529,7 @@ func vC20RunOnce(o *vC20Out, sc *vC20Scenario, passNontrivial bool) bool {
 		"exclude_a": cfg.DNS64.ExcludeANetworks, "exclude_aaaa": cfg.DNS64.ExcludeAAAANetworks,
 		"query": fmt.Sprintf("%s %s class=%d rd=%v cd=%v opt=%v internal=%v client=%v entry=%s", qname, dns.TypeToString[qtype], qclass, req.RecursionDesired, req.CheckingDisabled, sc.hasOPT, sc.internal, sc.client, entry),
 		"down": downDesc, "mark": mark, "work_enforced": sc.work, "tree_bound": sc.cut.desc(), "a_lookup": alCoq[:min(len(alCoq), 12)], "a_resp": vC20Desc(sc.aResp),
-		"reply": vC20Desc(got), "reply_is_downstream_msg": got != nil && got == down, "queryer_called": qr.called, "next_called": next.calls,
+		"reply": vC20Desc(got), "reply_is_downstream_msg": got != nil && got == down, "queryer_called": qr.called, "queryer_asked": vC20SubQDesc(qr.last), "next_called": next.calls,
 	}
 	if sc.cut != nil && sc.cut.folded && k == "serve-synth" {
 		k += "-bounded"
@@ -1781,6 +1781,26 @@ func vC20ExhaustiveCut(o *vC20Out) {
 			}
 		}
 	}
+}
+
+// the question a secondary query carried, as Run.subq (None: the Queryer was not asked)
+func vC20SubQ(m *dns.Msg) string {
+	if m == nil {
+		return "None"
+	}
+	if len(m.Question) != 1 {
+		return fmt.Sprintf("(Some (mk_subq [] 0 %d false false))", 1000+len(m.Question))
+	}
+	q := m.Question[0]
+	return fmt.Sprintf("(Some (mk_subq %s %d %d %s %s))", vC20Bs(q.Name), q.Qtype, q.Qclass, vC20Bool(m.RecursionDesired), vC20Bool(m.CheckingDisabled))
+}
+
+func vC20SubQDesc(m *dns.Msg) string {
+	if m == nil || len(m.Question) == 0 {
+		return "<none>"
+	}
+	q := m.Question[0]
+	return fmt.Sprintf("%s %s class=%d rd=%v cd=%v", q.Name, dns.TypeToString[q.Qtype], q.Qclass, m.RecursionDesired, m.CheckingDisabled)
 }
 
 func vC20Desc(m *dns.Msg) string {
